@@ -18,6 +18,7 @@ ASSUMPTIONS = [
 ]
 EXHAUSTIVE = {'quick': True, 'thorough': True}
 PYOPT_KINDS = ('random',)
+CLOCALE_KINDS = ('file',)
 TIMEOUT = {'quick': 600, 'thorough': 1800}
 
 
@@ -37,8 +38,12 @@ def plan(tier, seed):
 
 
 def _rt(ctx, lua, b, tag):
+    # a P8SCII byte string is any bytes-like object: bytes, a bytearray (a ROM or cart-data buffer), a view into one
+    k = ctx.monitors.get('roundtrips', 0) % 3
+    arg = (b, bytearray(b), memoryview(b))[k]
+    ctx.feature('argument_type:' + ('bytes', 'bytearray', 'memoryview')[k])
     try:
-        u = lua.p8scii_to_unicode(b)
+        u = lua.p8scii_to_unicode(arg)
         u.encode('utf-8')
         back = lua.unicode_to_p8scii(u)
     except Exception as e:
@@ -68,7 +73,8 @@ def run_shard(spec, ctx):
                               {'kind': 'table'})
             if len(s) == 0:
                 ctx.violation('byte %d has empty spelling' % b, {'kind': 'table'})
-            _rt(ctx, lua, bytes([b]), 'single')
+            for _ in range(3):      # (each argument type in turn)
+                _rt(ctx, lua, bytes([b]), 'single')
         for i in range(256):
             for j in range(256):
                 if i != j:
@@ -258,6 +264,24 @@ def file_shapes(ctx, lua, rng, count):
                 if got != want:
                     ctx.violation('.p8 path with the luamin writer changed the bytes of a multi-line string', {'kind': 'file', 'code': code})
                     return
+        # (b2) physical lines that consist of two underscores, glyphs (and word characters), two underscores: inside a block comment,
+        # inside a long string and as a name used as a statement's target -- a section header of a .p8 file is ASCII, these are code
+        per = [b'__' + bytes([b]) + b'__' for b in allglyph] + [b'__a' + bytes([b]) + b'1__' for b in allglyph[i::3]] + [
+            b'__' + bytes(rng.choice(allglyph[17:]) for _ in range(rng.randint(2, 8))) + b'__' for _ in range(20)]
+        rng.shuffle(per)
+        code = (b'--[[\n' + b'\n'.join(per[:80]) + b'\n]]\ns=[==[\n' + b'\n'.join(per[80:160]) + b'\n]==]\n' +
+                b''.join(n + b'\n=1\n' for n in per[160:] if n[2] >= 128 and all(c >= 128 or c in b'_a1' for c in n)) + b'x=2\n')
+        ctx.case(code)
+        try:
+            back = p8_roundtrip(code, version, entry)
+        except Exception as e:
+            ctx.violation('.p8 path (%s) raised %r on code with lines of the form __<glyphs>__' % (entry, e), {'kind': 'file', 'code': code})
+            return
+        ctx.monitor('file_roundtrips')
+        ctx.feature('lines_of_underscored_glyph_words')
+        if back != code:
+            ctx.violation('.p8 path changed code bytes on lines of the form __<glyphs>__', {'kind': 'file', 'code': code})
+            return
         # (c) the same bytes arriving through #include of another .p8 / .lua file
         inc_code = b'--' + bytes(b for b in rng.sample(list(allglyph), 60) if b not in (10, 13)) + b'\nq="' + bytes(
             rng.choice(three + multi) for _ in range(50)) + b'"\n'
@@ -391,7 +415,7 @@ def gates(m, tier):
     if mon.get('file_roundtrips', 0) < 1:
         missed.append('.p8 path never exercised')
     for k in ('file_version_0', 'file_version_33', 'file_entry_stream', 'file_entry_path', 'file_entry_cli', 'history_done', 'file_shapes_done',
-              'line_over_64k_utf8_bytes', 'multiline_token_cases_echo', 'multiline_token_cases_luamin', 'include_cases_p8', 'file_layout_lua_last', 'file_layout_lua_only', 'p8scii_runs_that_look_like_utf8_glyphs'):
+              'line_over_64k_utf8_bytes', 'lines_of_underscored_glyph_words', 'argument_type:bytes', 'argument_type:bytearray', 'argument_type:memoryview', 'multiline_token_cases_echo', 'multiline_token_cases_luamin', 'include_cases_p8', 'file_layout_lua_last', 'file_layout_lua_only', 'p8scii_runs_that_look_like_utf8_glyphs'):
         if f.get(k, 0) < 1:
             missed.append('%s never seen' % k)
     if mon.get('foreign_conversions', 0) < 20:
